@@ -7,7 +7,7 @@ Inductive call :=
 | CHeader | CSeek (s : N) | CQCount | CRCount | CRCountIn (s : N)
 | CQuestion | CQuestionRef | CTheQuestion | CTheQuestionRef | CSkipQuestions
 | CMarker | CHeaderRef | CHeaderN (nk : name_kind)
-| CSkipData (k : N) | CDataBytes (k : N) | CData (ty : N) (k : N) | COpt (k : N)
+| CSkipData (k : N) | CDataBytes (k : N) | CData (ty : N) (k : N) | COpt (k : N) | COptOrSkip (k : N)
 | CBytesAt (k : N) | CDataAt (ty : N) (k : N) | CNameRefAt (k : N)
 | CNrefEq (i j : N) | CNrefName (nk : name_kind) (i : N) | CNrefLabels (i : N).
 
@@ -66,6 +66,7 @@ Definition step (w : world) (ri : N) (cl : call) : world * res sobs :=
         let k' := if k =? 99999 then lenN (w_markers w) - 1 else k in
         match getN (w_markers w) k' with Some mk => f mk | None => (w, Ok SNoSuch) end in
     let with_nref i (f : N -> list byte -> cursor -> world * res sobs) :=
+        let i := if i =? 99999 then lenN (w_nrefs w) - 1 else i in
         match getN (w_nrefs w) i with
         | Some (mi, c) => match getN (w_msgs w) mi with Some m => f mi m c | None => (w, Ok SNoSuch) end
         | None => (w, Ok SNoSuch) end in
@@ -87,12 +88,13 @@ Definition step (w : world) (ri : N) (cl : call) : world * res sobs :=
     | CDataBytes k => with_mk k (fun mk => mut (rd_data_bytes msg mk r))
     | CData ty k => with_mk k (fun mk => mut (rd_data msg ty mk r))
     | COpt k => with_mk k (fun mk => mut (rd_opt mk r))
+    | COptOrSkip k => with_mk k (fun mk => mut (if m_rtype mk =? T_OPT then rd_opt mk r else rd_skip_data mk r))
     | CBytesAt k => with_mk k (fun mk => pure (rd_bytes_at msg mk r))
     | CDataAt ty k => with_mk k (fun mk => pure (rd_data_at msg ty mk r))
     | CNameRefAt k => with_mk k (fun mk => pure (rd_name_ref_at mk r))
     | CNrefEq i j =>
       with_nref i (fun mi m c1 =>
-        match getN (w_nrefs w) j with
+        match getN (w_nrefs w) (if j =? 99999 then lenN (w_nrefs w) - 1 else j) with
         | Some (mj, c2) =>
           (* NameRef::eq across different messages compares unrelated buffers; the model only
              defines it for names of the same message (the generator respects this) *)
